@@ -365,6 +365,35 @@ def run(tier, replay=None):
                           {"ploidy": ploidy, "n_base": nb, "temperatures": temps.tolist(), "first_differing_step": s_, "seed": sd,
                            "certainly_flushed": overflow}, "C09/assemble/cache-trajectory")
 
+    # ------------------------------------------------------------------ (ii-a2') every chain of small ladders, the boundary ladder (inverse temperature exactly 0) included
+    for it in range({"warm": 1, "quick": 6, "thorough": 40}[tier]):
+        ploidy = r.choice([2, 3, 4]); nb = r.randint(3, 5)
+        n_alleles = [r.choice([2, 3, 4]) for _ in range(nb)]
+        if max(n_alleles) < 3:
+            n_alleles[r.randrange(nb)] = r.choice([3, 4])
+        truth = G.gen_genotype(r, ploidy, n_alleles, dup=0.3)
+        reads, counts = G.gen_reads(r, n_alleles, r.randint(1, 6), haps=truth, gap=0.3, style="encoded")
+        temps = np.array([(0.0, 1.0), (0.0, 0.3, 1.0), (0.2, 1.0), (0.0, 0.1, 0.3, 0.6, 1.0)][it % 4])
+        bd = amcmc._point_beta_probabilities(nb, 1.0, 3.0)
+        sd = r.randrange(1, 2 ** 31)
+        for thr in (-1, 0):
+            seed_numba(sd); np.random.seed(sd)
+            g_, l_ = amcmc._denovo_assembler(
+                genotype=np.array(truth, dtype=np.int8), inbreeding=r.choice([0.0, 0.1]), reads=reads, read_counts=counts,
+                n_alleles=np.array(n_alleles, dtype=np.int8), steps=150, break_dist=bd, recombination_step_probability=0.5,
+                partial_dosage_step_probability=0.5, dosage_step_probability=1.0, temperatures=temps, return_heated_trace=True,
+                llk_cache_threshold=thr)
+            chk.count("fit:all-chains-of-a-ladder"); chk.count("fit:ladder-from-%s" % ("0" if temps[0] == 0 else "above-0"))
+            chk.case(("fit-ladder", it, thr, tuple(temps.tolist())), True)
+            bad = next(((t, s_) for t in range(g_.shape[0]) for s_ in range(g_.shape[1])
+                        if not C.close_log(float(l_[t, s_]), float(log_likelihood(reads, g_[t, s_], read_counts=counts)))), None)
+            if bad is not None:
+                chk.violation("likelihood carried by a chain of the ladder differs from the recomputed likelihood of its genotype",
+                              {"cache": "on" if thr == 0 else "off", "chain": bad[0], "inverse_temperature": float(temps[bad[0]]), "step": bad[1],
+                               "genotype": g_[bad].tolist(), "carried": float(l_[bad]),
+                               "recomputed": float(log_likelihood(reads, g_[bad], read_counts=counts)), "temperatures": temps.tolist(),
+                               "n_alleles": n_alleles, "seed": sd}, "C09/assemble/trace-llk")
+
     # ------------------------------------------------------------------ (ii-a3) jitted call sampler: cache on / off for one seed, trace llks recomputed
     from mchap.calling import mcmc as cmcmc
     from mchap.calling.classes import CallingMCMC
